@@ -29,6 +29,27 @@ def modelledOverrides : List (String × String) :=
 /-- Every override found in the source on this run is modelled, and nothing else is. -/
 theorem overrides_all_modelled : Generated.MLOverrides.overrides = modelledOverrides := by decide
 
+/-- The classes known to define `propagate_values`: the base (`Node`: nothing), `StandardNode` (runs
+    the single node through the backend, never a node with subgraphs), `Constant` (its attribute),
+    `_Initializer` (its value), `_Inline` (the inlined model, not through control flow). A propagated
+    value enters reported shapes through ONNX's data propagation, so any other definition is a new way
+    for a reported type to depend on a value; the value-dependent oracle covers exactly these. -/
+def knownValueOverrides : List (String × String) :=
+  [("_inline", "_Inline"), ("_internal_op", "_Initializer"), ("_node", "Node"), ("_standard", "StandardNode"),
+   ("opset.ai.onnx.v17", "_Constant"), ("opset.ai.onnx.v19", "_Constant"), ("opset.ai.onnx.v21", "_Constant")]
+
+theorem value_overrides_all_known : Generated.MLOverrides.valueOverrides = knownValueOverrides := by decide
+
+/-- The operators of the default domain that SAMPLE (a built model draws afresh on every run, so no value
+    computed from one sample may reach a reported shape) are all excluded from value propagation: the
+    exclusion set read from `_standard.py` on this run — empty if `propagate_values_onnx` no longer
+    consults it — contains every one of them. -/
+def samplingOps : List String :=
+  ["Bernoulli", "Dropout", "Multinomial", "RandomNormal", "RandomNormalLike", "RandomUniform", "RandomUniformLike"]
+
+theorem sampling_ops_guarded :
+    samplingOps.all (fun n => Generated.MLOverrides.samplingGuard.contains n) = true := by decide
+
 /-! ## ai.onnx.ml operators -/
 
 theorem binarizer_sound (x : ITy) (v : RtVal) (outs : List ITy) (w : List RtVal)
@@ -393,6 +414,46 @@ theorem compress_sound (axis : Option Int) (x c : ITy) (vx vc : RtVal) (k : Nat)
               simp only [Option.some.injEq] at hr; subst hr
               simp [conformsAll, conforms, tensor, hex, dimsOk_set_anon i k hsx]
 
+/-- The repaired Compress routine (`inferCompressFixed`: a vector for an input of unknown rank when no
+    axis is given) is sound as well — whichever of the two variants the source implements is covered. -/
+theorem compress_fixed_sound (axis : Option Int) (x c : ITy) (vx vc : RtVal) (k : Nat) (outs : List ITy)
+    (w : List RtVal) (hi : inferCompressFixed axis x c = .ok outs) (hcx : conforms vx x = true)
+    (hcc : conforms vc c = true) (hr : rtCompress axis k vx = some w) : conformsAll w outs = true := by
+  rcases x with _ | ⟨e, s⟩
+  · exact compress_sound axis none c vx vc k outs w (by simpa [inferCompressFixed, inferCompress] using hi) hcx hcc hr
+  rcases c with _ | ct
+  · exact compress_sound axis (some ⟨e, s⟩) none vx vc k outs w (by simpa [inferCompressFixed, inferCompress] using hi) hcx hcc hr
+  rcases s with _ | ds
+  · -- unknown rank
+    obtain ⟨xe, xs⟩ := vx
+    simp only [conforms, Bool.and_eq_true, beq_iff_eq] at hcx
+    obtain ⟨hex, -⟩ := hcx
+    unfold inferCompressFixed at hi
+    simp only at hi
+    split at hi
+    · simp at hi
+    · rcases axis with _ | a
+      · simp only at hi
+        split at hi
+        · simp at hi
+        · simp only [Res.ok.injEq] at hi; subst hi
+          simp only [rtCompress, Option.some.injEq] at hr; subst hr
+          simp [conformsAll, conforms, tensor, dimsOk, dimOk, hex]
+      · simp only [Res.ok.injEq] at hi; subst hi
+        simp only [rtCompress] at hr
+        split at hr
+        · simp at hr
+        · simp only [Option.some.injEq] at hr; subst hr
+          simp [conformsAll, conforms, hex]
+  · -- known rank: the routine is unchanged
+    have : inferCompress axis (some ⟨e, some ds⟩) (some ct) = .ok outs := by
+      unfold inferCompressFixed at hi
+      simp only at hi
+      split at hi
+      · simp at hi
+      · exact hi
+    exact compress_sound axis _ _ vx vc k outs w this hcx hcc hr
+
 /-! ## `_strip_dim_symbol`, inline -/
 
 /-- Forgetting symbolic dims only weakens a type. -/
@@ -617,6 +678,183 @@ theorem loop_scan_zero_sound (w : RtVal) (t : Ty) (h : emptyScanOk w t = true) :
     · cases n with
       | zero => simpa [scanTy, dimsOk] using h.2
       | succ m => simp at h
+
+/-! ### Scan outputs and the trip count (data-dependent termination)
+
+A constant trip count `M` bounds the number of stacked rows but does not determine it: the body's
+returned condition ends the loop early. So "leading dim = M" (a refinement of the reported scan type
+by a propagated trip count) is sound exactly for bodies that never break. -/
+
+/-- The number of iterations (= rows of every scan output) never exceeds the trip count. -/
+theorem loopRun_rows_le (body : Body) : ∀ (M i : Nat) (c : Bool) (vs fin : List RtVal)
+    (scs : List (List RtVal)), loopRun body M i c vs = some (fin, scs) → scs.length ≤ M := by
+  intro M
+  induction M with
+  | zero =>
+    intro i c vs fin scs h
+    simp only [loopRun, Option.some.injEq, Prod.mk.injEq] at h
+    rw [← h.2]; simp
+  | succ m ih =>
+    intro i c vs fin scs h
+    cases c with
+    | false =>
+      simp only [loopRun, Option.some.injEq, Prod.mk.injEq] at h
+      rw [← h.2]; simp
+    | true =>
+      simp only [loopRun] at h
+      split at h
+      · simp at h
+      · rename_i c' vs' sc hb
+        split at h
+        · simp at h
+        · rename_i fin' scs' hr
+          simp only [Option.some.injEq, Prod.mk.injEq] at h
+          have := ih (i + 1) c' vs' fin' scs' hr
+          rw [← h.2]; simp only [List.length_cons]; omega
+
+/-- With `cond` omitted (= true) and a body that never returns a false condition the loop runs exactly
+    `M` times. -/
+theorem loopRun_rows_eq_of_never_breaks (body : Body)
+    (hnb : ∀ i vs c vs' sc, body i vs = some (c, vs', sc) → c = true) :
+    ∀ (M i : Nat) (vs fin : List RtVal) (scs : List (List RtVal)),
+      loopRun body M i true vs = some (fin, scs) → scs.length = M := by
+  intro M
+  induction M with
+  | zero =>
+    intro i vs fin scs h
+    simp only [loopRun, Option.some.injEq, Prod.mk.injEq] at h
+    rw [← h.2]; simp
+  | succ m ih =>
+    intro i vs fin scs h
+    simp only [loopRun] at h
+    split at h
+    · simp at h
+    · rename_i c' vs' sc hb
+      have hc : c' = true := hnb i vs c' vs' sc hb
+      subst hc
+      split at h
+      · simp at h
+      · rename_i fin' scs' hr
+        simp only [Option.some.injEq, Prod.mk.injEq] at h
+        have := ih (i + 1) vs' fin' scs' hr
+        rw [← h.2]; simp only [List.length_cons]; omega
+
+/-- The leading dim of a stacked scan output is the number of stacked slices. -/
+theorem stackScan_rows (l : List RtVal) (w : RtVal) (h : stackScan l = some w) :
+    ∃ r, w.s = l.length :: r := by
+  cases l with
+  | nil => simp [stackScan] at h
+  | cons v vs =>
+    simp only [stackScan] at h
+    split at h
+    · simp only [Option.some.injEq] at h; subst h; exact ⟨v.s, by simp⟩
+    · simp at h
+
+theorem column_length_le (scs : List (List RtVal)) (j : Nat) : (column scs j).length ≤ scs.length := by
+  unfold column; exact List.length_filterMap_le _ _
+
+/-- Every scan output of every run has at most `M` rows (whatever the body, the initial condition and
+    the carried values do). -/
+theorem loop_scan_rows_le_tripcount (body : Body) (M : Nat) (c0 : Bool) (v0 fin : List RtVal)
+    (scs : List (List RtVal)) (j : Nat) (w : RtVal)
+    (hrun : loopRun body M 0 c0 v0 = some (fin, scs)) (hs : stackScan (column scs j) = some w) :
+    ∃ k r, w.s = k :: r ∧ k ≤ M := by
+  obtain ⟨r, hr⟩ := stackScan_rows _ _ hs
+  exact ⟨_, r, hr, Nat.le_trans (column_length_le scs j) (loopRun_rows_le body M 0 c0 v0 fin scs hrun)⟩
+
+/-- The scan type refined by a constant trip count: leading dim `M` instead of unknown. -/
+def scanTyM (m : Nat) (t : Ty) : Ty := ⟨t.e, t.s.map (Dim.const m :: ·)⟩
+
+/-- A body that stops after its second iteration (`i + 1 < 2`), each iteration emitting one `i64[1]`
+    slice. -/
+def breakAt2 : Body := fun i vs => some (decide (i + 1 < 2), vs, [⟨.i64, [1]⟩])
+
+/-- **Refutation of "scan rows = constant trip count"**: `M = 4`, `cond` omitted, the body breaks after
+    two iterations: the scan output has 2 rows, so it does not conform to the type refined by the
+    trip count, while it does conform to the type spox reports (unknown leading dim). This is the run
+    the termination-Loop oracle replays on the real code. -/
+theorem loop_scan_tripcount_counterexample :
+    ∃ fin scs w, loopRun breakAt2 4 0 true [⟨.f32, [3]⟩] = some (fin, scs) ∧
+      stackScan (column scs 0) = some w ∧
+      conforms w (some (scanTyM 4 ⟨.i64, some [.const 1]⟩)) = false ∧
+      conforms w (some (scanTy ⟨.i64, some [.const 1]⟩)) = true :=
+  ⟨[⟨.f32, [3]⟩], [[⟨.i64, [1]⟩], [⟨.i64, [1]⟩]], ⟨.i64, [2, 1]⟩, by decide, by decide, by decide, by decide⟩
+
+/-- What does hold for the refined type: if the body never breaks and `cond` is omitted, a stacked
+    column with one slice per iteration has exactly `M` rows and conforms to the refined type. -/
+theorem loop_scan_tripcount_sound_partial (body : Body)
+    (hnb : ∀ i vs c vs' sc, body i vs = some (c, vs', sc) → c = true)
+    (M : Nat) (v0 fin : List RtVal) (scs : List (List RtVal)) (j : Nat) (t : Ty) (w : RtVal)
+    (hrun : loopRun body M 0 true v0 = some (fin, scs))
+    (hfull : (column scs j).length = scs.length)
+    (hs : stackScan (column scs j) = some w) (hc : conforms w (some (scanTy t)) = true) :
+    conforms w (some (scanTyM M t)) = true := by
+  obtain ⟨r, hr⟩ := stackScan_rows _ _ hs
+  have hM : (column scs j).length = M := by
+    rw [hfull]; exact loopRun_rows_eq_of_never_breaks body hnb M 0 v0 fin scs hrun
+  rw [hM] at hr
+  obtain ⟨we, ws⟩ := w
+  simp only at hr; subst hr
+  rcases t with ⟨e, _ | ds⟩
+  · simpa [conforms, scanTy, scanTyM] using hc
+  · simp only [conforms, scanTy, scanTyM, Option.map_some, dimsOk, Bool.and_eq_true] at hc ⊢
+    refine ⟨hc.1, ?_, hc.2.2⟩
+    simp [dimOk]
+
+example : loopRun breakAt2 4 0 true [⟨.f32, [3]⟩] = some ([⟨.f32, [3]⟩], [[⟨.i64, [1]⟩], [⟨.i64, [1]⟩]]) := by decide
+
+/-- An omitted trip count behaves like any trip count the run does not exhaust: whatever a run without
+    `M` produces, the run with `M = fuel` produces too. So every soundness theorem stated for `loopRun`
+    (carried values, body arguments, scan outputs) also covers loops whose trip count is omitted. -/
+theorem loopRunUntil_eq_loopRun (body : Body) : ∀ (f i : Nat) (c : Bool) (vs : List RtVal)
+    (r : List RtVal × List (List RtVal)), loopRunUntil body f i c vs = some r → loopRun body f i c vs = some r := by
+  intro f
+  induction f with
+  | zero =>
+    intro i c vs r h
+    cases c with
+    | false => simpa [loopRunUntil, loopRun] using h
+    | true => simp [loopRunUntil] at h
+  | succ m ih =>
+    intro i c vs r h
+    cases c with
+    | false => simpa [loopRunUntil, loopRun] using h
+    | true =>
+      simp only [loopRunUntil] at h
+      simp only [loopRun]
+      split at h
+      · simp at h
+      · rename_i c' vs' sc hb
+        split at h
+        · simp at h
+        · rename_i fin' scs' hr
+          have := ih (i + 1) c' vs' (fin', scs') hr
+          simp only [this]
+          exact h
+
+/-- Both optional inputs: a run of `Loop` with `M` and / or `cond` omitted is a `loopRun` (with
+    `M := fuel` resp. `c0 := true`). -/
+theorem loopRunOpt_is_loopRun (body : Body) (M : Option Nat) (cond : Option Bool) (fuel : Nat)
+    (vs : List RtVal) (r : List RtVal × List (List RtVal)) (h : loopRunOpt body M cond fuel vs = some r) :
+    loopRun body (M.getD fuel) 0 (cond.getD true) vs = some r := by
+  cases M with
+  | some m => simpa [loopRunOpt] using h
+  | none => exact loopRunUntil_eq_loopRun body fuel 0 (cond.getD true) vs r (by simpa [loopRunOpt] using h)
+
+/-- Scan outputs of a loop WITHOUT a trip count: same reported type, same soundness. -/
+theorem loop_scan_output_sound_noM (a s : List Ty) (body : Body) (cond : Option Bool) (fuel : Nat)
+    (v0 fin : List RtVal) (scs : List (List RtVal)) (j : Nat) (t : Ty) (w : RtVal)
+    (hinit : conformsAll v0 (a.map some) = true)
+    (hbody : ∀ i vs c vs' sc, conformsAll vs (a.map some) = true → body i vs = some (c, vs', sc) →
+        conformsAll sc (s.map some) = true)
+    (hrun : loopRunOpt body none cond fuel v0 = some (fin, scs)) (hj : s[j]? = some t)
+    (hs : stackScan (column scs j) = some w) : conforms w (some (scanTy t)) = true :=
+  loop_scan_output_sound a s body fuel (cond.getD true) v0 fin scs j t w hinit hbody
+    (by simpa using loopRunOpt_is_loopRun body none cond fuel v0 (fin, scs) hrun) hj hs
+
+example : loopRunOpt breakAt2 none none 10 [⟨.f32, [3]⟩] = some ([⟨.f32, [3]⟩], [[⟨.i64, [1]⟩], [⟨.i64, [1]⟩]]) := by decide
+example : loopRunOpt (fun _ vs => some (true, vs, [])) none none 10 [⟨.f32, [3]⟩] = none := by decide
+
 
 /-- No modelled routine turns a non-tensor input into a tensor claim: it raises, or (Binarizer,
     Normalizer) hands the non-tensor type through — for which no runtime value exists. -/
